@@ -314,8 +314,49 @@ def replay(ctx, data):
     return rep
 
 
+def singular_hunt(ctx, rep, n_per_scope=30000):
+    """Failing-input search for the non-singularity clause in the scopes no enumeration reaches (D = 4..6, mesh ratios >= 2): many random
+    outcomes of the generator's draws, the implementation's basis computed under the scripted source, its determinant taken numerically;
+    only singular ones are handed to the Lean predicate and reported."""
+    pm = sys.modules.get("pybads.poll.poll_mads_2n")
+    if pm is None:
+        import pybads.poll  # noqa
+        pm = sys.modules["pybads.poll.poll_mads_2n"]
+    rng = ctx.sub_rng("c14hunt")
+    old = (np.random.randint, np.random.permutation)
+    found = []
+    try:
+        for D in (4, 5, 6):
+            perms = None
+            for ratio in (2, 4, 3):
+                nmax = ratio
+                vals = list(range(1, 2 * nmax))
+                for _ in range(n_per_scope):
+                    mat = [[rng.choice(vals) for _ in range(D)] for _ in range(D)]
+                    sg = [rng.choice([1, 2]) for _ in range(D)]
+                    perm = list(range(D)); rng.shuffle(perm)
+                    sc = Scripted(mat, sg, perm)
+                    np.random.randint, np.random.permutation = sc.randint, sc.permutation
+                    ps = np.ones(D)
+                    B = np.asarray(pm.poll_mads_2n(D, ps, float(ratio), 1.0))
+                    if abs(np.linalg.det(B[:D])) < 0.5:
+                        found.append((D, float(ratio), 1.0, ps, mat, sg, perm))
+                        break
+                if len(found) >= 3:
+                    break
+            if len(found) >= 3:
+                break
+    finally:
+        np.random.randint, np.random.permutation = old
+    if found:
+        function_level(ctx, rep, only=[{"D": D, "sms": sms, "ms": ms, "poll_scale": [float(v) for v in ps], "draw": mat, "sgn": sg, "perm": perm} for D, sms, ms, ps, mat, sg, perm in found])
+    return len(found)
+
+
 def widen(ctx, rep0):
     rep = Report()
     sub = type(ctx)(ctx.pid, "thorough", ctx.seed + 3)
     function_level(sub, rep)
+    if not rep.violations:
+        singular_hunt(sub, rep)
     return rep
